@@ -19,6 +19,19 @@ import (
 
 const verifRoot = "/verif"
 
+// repoRoot is the tree under verification; GOCV_REPO redirects a development run (for
+// instance the evaluation of a seeded change) to a scratch worktree, GOCV_OUT its
+// evidence and replay files, so that /repo and /verif/evidence stay untouched.
+var repoRoot = envOr("GOCV_REPO", "/repo")
+var outRoot = envOr("GOCV_OUT", verifRoot)
+
+func envOr(k, d string) string {
+	if v := os.Getenv(k); v != "" {
+		return v
+	}
+	return d
+}
+
 type LedgerFunc struct {
 	Name       string   `json:"name"`
 	Complete   bool     `json:"complete"`   // every obligation of the function discharged on the pinned tree
@@ -84,7 +97,7 @@ func repoContractRoots() []string {
 	// contracts live in /repo (tag-guarded comment-only files); /verif/contracts is the mirror used when absent
 	var roots []string
 	found := false
-	filepath.Walk("/repo", func(p string, info os.FileInfo, err error) error {
+	filepath.Walk(repoRoot, func(p string, info os.FileInfo, err error) error {
 		if err == nil && !info.IsDir() && strings.HasSuffix(p, "zz_contracts_verif.go") {
 			found = true
 			return filepath.SkipAll
@@ -95,7 +108,7 @@ func repoContractRoots() []string {
 		return nil
 	})
 	if found && os.Getenv("GOCV_CONTRACTS") != "mirror" {
-		roots = append(roots, "/repo")
+		roots = append(roots, repoRoot)
 	} else {
 		roots = append(roots, filepath.Join(verifRoot, "contracts"))
 	}
@@ -166,11 +179,11 @@ func (r *checkRun) run() int {
 	}
 	defer os.RemoveAll(tmp)
 	r.smtDir = tmp
-	r.replayDir = filepath.Join(verifRoot, "replays", r.prop)
+	r.replayDir = filepath.Join(outRoot, "replays", r.prop)
 	ledger := r.loadLedger()
 	cfg := &Config{InlineMax: 3}
 	if len(pats) > 0 {
-		r.prog, err = LoadProgram("/repo", pats)
+		r.prog, err = LoadProgram(repoRoot, pats)
 		if err != nil {
 			// the tree does not build: nothing can be decided
 			fmt.Println("load error:", err)
@@ -188,6 +201,23 @@ func (r *checkRun) run() int {
 		res := VerifyFunction(r.prog, r.contracts, fn, r.contracts.Funcs[k], cfg)
 		res.Name = k
 		r.results = append(r.results, res)
+		lf := ledger.Funcs[k]
+		if !r.update && lf != nil && !lf.Complete {
+			// an incomplete function: only the obligations of the ledger (and the vacuity
+			// guards) are decided; the others were never proved and stay undecided
+			want := map[string]bool{}
+			for _, n := range lf.Discharged {
+				want[n] = true
+			}
+			for _, o := range res.Obs {
+				if want[o.Name] || o.expect() == "sat" {
+					all = append(all, o)
+				} else {
+					o.Result = "not attempted (never discharged on the pinned tree)"
+				}
+			}
+			continue
+		}
 		all = append(all, res.Obs...)
 	}
 	for _, lm := range r.contracts.Lemmas {
@@ -369,9 +399,9 @@ func (r *checkRun) run() int {
 		"wall_s":      round3(time.Since(r.start).Seconds()),
 		"violations":  len(violations),
 	}
-	os.MkdirAll(filepath.Join(verifRoot, "evidence"), 0o755)
+	os.MkdirAll(filepath.Join(outRoot, "evidence"), 0o755)
 	data, _ := json.MarshalIndent(ev, "", " ")
-	os.WriteFile(filepath.Join(verifRoot, "evidence", r.prop+".json"), data, 0o644)
+	os.WriteFile(filepath.Join(outRoot, "evidence", r.prop+".json"), data, 0o644)
 
 	seenKF := map[string]bool{}
 	for _, l := range knownHit {
@@ -594,7 +624,7 @@ func runHarness(h harnessSpec, tier string, seed int) harnessResult {
 	defer os.RemoveAll(dir)
 	ov := map[string]map[string]string{"Replace": {}}
 	for _, f := range h.Files {
-		ov["Replace"][filepath.Join("/repo", h.Pkg, "zz_verif_"+filepath.Base(f))] = filepath.Join(verifRoot, "harness", f)
+		ov["Replace"][filepath.Join(repoRoot, h.Pkg, "zz_verif_"+filepath.Base(f))] = filepath.Join(verifRoot, "harness", f)
 	}
 	data, _ := json.Marshal(ov)
 	ovp := filepath.Join(dir, "ov.json")
@@ -605,7 +635,7 @@ func runHarness(h harnessSpec, tier string, seed int) harnessResult {
 	}
 	args := []string{"test", "-overlay", ovp, "-vet=off", "-count=1", "-timeout", to, "-run", h.Run, "-v", "./" + h.Pkg}
 	cmd := exec.Command("go", args...)
-	cmd.Dir = "/repo"
+	cmd.Dir = repoRoot
 	cmd.Env = append(os.Environ(), "GOFLAGS=-mod=mod", "GOPROXY=off", "VERIF_TIER="+tier, fmt.Sprintf("VERIF_SEED=%d", seed))
 	var out bytes.Buffer
 	cmd.Stdout = &out
